@@ -7,6 +7,7 @@ CONSTANTS
   Acts = {"Alloc", "Unroot", "Spawn", "Collect", "SpawnOn"}
   TwoVMs = FALSE
   Emit = FALSE
+  Traps = {}
   Mutant = "none"
 VIEW View
 INVARIANTS TypeOK Isolation NoDangling
